@@ -27,6 +27,8 @@ def main(argv=None):
         if pid == 'SELFTEST':
             from . import selftest
             return selftest.main()
+        from . import choice as _choice
+        _choice.CURRENT_PID[0] = pid
         mod = importlib.import_module(f"checks.{pid.lower()}")
         from .report import Report
         if args.replay:
